@@ -24,12 +24,17 @@ MImport == ~imported /\ \E n \in {0, 3} : Import(n) /\ draws' = draws + n /\ UNC
 ConstructItem(m) == Construct(m.kind, m.how, ToSet(m.ex), Ideal(m.kind, ToSet(m.ex), Fields(m.kind) \ Late(m.kind), draws), {})
                     /\ draws' = draws + Step /\ UNCHANGED nexp
 MConstruct == Len(arts) < MaxArts /\ \E m \in UseMenu : ConstructItem(m)
+\* the object of a live artefact is configured again: any load_from_config item of its kind, whatever the object was built with before
+ReconfItems(o) == IF Art(o).kind \in Reconf THEN {m \in UseMenu : m.kind = Art(o).kind /\ m.how = "config"} ELSE {}
+ReconfigureItem(o, m) == Reconfigure(o, ToSet(m.ex), Ideal(m.kind, ToSet(m.ex), Fields(m.kind) \ Late(m.kind), draws), {})
+                         /\ draws' = draws + Step /\ UNCHANGED nexp
+MReconfigure == Len(arts) < MaxArts /\ \E o \in live : \E m \in ReconfItems(o) : ReconfigureItem(o, m)
 \* an export keeps the values of construction time and draws the late fields anew
 ExportVals(a) == [f \in Fields(Art(a).kind) |-> IF f \in Late(Art(a).kind) THEN draws + FieldNo(Art(a).kind, f) ELSE Art(a).val[f]]
 ExportArt(a) == Export(a, ExportVals(a), {}, {}) /\ draws' = draws + Step /\ nexp' = nexp + 1
 MExport == nexp < MaxExp /\ \E a \in live : ExportArt(a)
 MRestart == proc < MaxProc /\ imported /\ Restart /\ UNCHANGED <<draws, nexp>>
-MNext == MImport \/ MConstruct \/ MExport \/ MRestart
+MNext == MImport \/ MConstruct \/ MReconfigure \/ MExport \/ MRestart
 MSpec == MInit /\ [][MNext]_mvars
 \* generator values are never handed out twice, user values never come from the generator
 GeneratorFresh == \A a \in DOMAIN arts : \A v \in Has(a) : v < draws
